@@ -104,8 +104,9 @@ func (s *scanner) Length() uint {
 
 		if lex.Type() == lexeme.EndTop {
 			// Found character after the end of the schema and spaces. Ex: char
-			// "s" in "{} some text".
-			length = uint(lex.End()) - 1
+			// "s" in "{} some text". The character itself is not part of the
+			// document; blanks before it are trimmed below.
+			length = uint(lex.End())
 			break
 		}
 		length = uint(lex.End()) + 1
